@@ -272,6 +272,7 @@ func total(c *vm.Ctx, text string, class string) {
 }
 
 var handTexts = []string{
+	"[[01d],[1f,01f]]", "[01,1b]", "[[01],[1b,01]]",
 	"", " ", "[", "]", "{", "}", "[,]", "[;]", "[,1]", "[1,]", "[1,,2]", "{a:}", "{:1}", "{a}", "{a:1,}", "{,}", "{a:1 b:2}", `["b",{}]`, "{a:1}x", "1 2", "1,2",
 	"[[1],[2]]", "[[],[1]]", "[[I;1],[L;1l]]", "[[1],[a]]", "[1,a]", "[1,2b]", "[{},[]]", "[{},1]", "[[],{}]", "[B;1]", "[I;1b]", "[L;1]", "[I;1I]", "[I;{}]", "[I;[1]]", "[B;1b,]", "[B;,1b]", "[X;1]", "[B", "[B;", "[I;1", "[I;1,",
 	"1.5", "-1.5", "1.5f", "1.50", "0.1", "00.1", ".5", "5.", "1e5", "1.5e5", "1E-5f", "+1", "-0", "-0.0", "01", "1b", "128b", "-129b", "255B", "32768s", "2147483648", "9223372036854775808L", "1.0.0", "--1", "1-1", "1+1", "+", "-", ".", "-.", "1f", "1d", "1F", "1D", "1L", "1l", "1I", "1i", "1S", "1s",
